@@ -1,6 +1,6 @@
 (* C05 - UDP fragmentation is all-or-nothing and size-bounded.
    Property theorems only; every proof is `exact <lemma>` from proof/C05_Frag.v. *)
-From Hy Require Import model.C05_Frag model.C05_Send model.C05_SendIds proof.C05_Frag proof.C05_Send proof.C05_SendIds.
+From Hy Require Import model.C05_Frag model.C05_Send model.C05_SendIds model.C05_Sess proof.C05_Frag proof.C05_Send proof.C05_SendIds proof.C05_Sess.
 From Coq Require Import ZArith.
 Local Open Scope N_scope.
 
@@ -198,3 +198,89 @@ Theorem C05_adjacent_id_repeat_loses_a_message : exists rs d' outs,
   length outs = 1%nat /\ length (hist_delivered 4096 7 ex_rep) = 2%nat.
 Proof. exact ex_rep_loses. Qed.
 Print Assumptions C05_adjacent_id_repeat_loses_a_message.
+
+(* ---------------- reassembly through the session managers (model/C05_Sess.v) ---------------- *)
+
+(* Sessions do not interfere.  For every history of operations on one connection (arrivals of any sessions, pauses with
+   the idle sweeper running, client opens and closes) and every session s: what s is handed, in order, and the table
+   entry of s at the end are exactly those of the history with every operation of OTHER sessions removed - from any
+   state that agrees on s's entry, the clock and the id counter.  In particular reassembly state is per session:
+   fragments of other sessions, whatever their packet ids and counts, can neither evict nor complete a message of s. *)
+Theorem C05_sessions_isolated : forall iv timeout s ops st st' st1 outs,
+  agree s st st' ->
+  sm_run iv timeout st ops = Ok (st1, outs) ->
+  exists st1', sm_run iv timeout st' (filter (concerns s) ops) = Ok (st1', of_session s outs) /\
+               agree s st1 st1'.
+Proof. exact sess_isolated. Qed.
+Print Assumptions C05_sessions_isolated.
+
+(* A fragmented message that OPENS a session on the server (no entry for its session id) is delivered exactly once,
+   equal to the original, in EVERY arrival order of its fragments with duplicates - the first fragment to arrive need
+   not be fragment 0 - and whatever arrives for other sessions in between. *)
+Theorem C05_sess_opening_any_order : forall iv timeout st ops m maxSize fs st1 outs,
+  fid m = 0 -> fcount m = 1 ->
+  frag m maxSize = Ok fs -> (2 <= length fs)%nat ->
+  ms_tab st (sid m) = None ->
+  (forall o, In o ops -> is_arrS o) ->
+  (forall f, In f (arrivals_of (sid m) ops) -> In f fs) ->
+  (forall f, In f fs -> In f (arrivals_of (sid m) ops)) ->
+  sm_run iv timeout st ops = Ok (st1, outs) ->
+  of_session (sid m) outs = [m].
+Proof. exact sess_opening_delivers. Qed.
+Print Assumptions C05_sess_opening_any_order.
+
+(* The same after the idle sweeper removed the entry: a pause of at least one sweep interval that leaves the session
+   idle for the timeout plus one interval removes the entry (with its reassembly state), and the fragmented message
+   that follows re-opens the session in every arrival order. *)
+Theorem C05_sess_reopen_any_order : forall iv timeout st d e ops m maxSize fs st1 outs,
+  fid m = 0 -> fcount m = 1 ->
+  frag m maxSize = Ok fs -> (2 <= length fs)%nat ->
+  0 < iv -> iv <= d ->
+  ms_tab st (sid m) = Some e -> se_last e + timeout + iv <= ms_now st + d ->
+  (forall o, In o ops -> is_arrS o) ->
+  (forall f, In f (arrivals_of (sid m) ops) -> In f fs) ->
+  (forall f, In f fs -> In f (arrivals_of (sid m) ops)) ->
+  sm_run iv timeout st (MSleep d :: ops) = Ok (st1, outs) ->
+  of_session (sid m) outs = [m].
+Proof. exact sess_reopen_delivers. Qed.
+Print Assumptions C05_sess_reopen_any_order.
+
+(* A history of arrivals of one session on the server is a history of that session's reassembler: every theorem about
+   feed_all (any order, no chimera) carries over to the session manager. *)
+Theorem C05_sess_single_is_feed_all : forall iv timeout s seq st d' outs,
+  (forall f, In f seq -> sid f = s) ->
+  feed_all (cur_d st s) seq = Ok (d', outs) ->
+  exists st', sm_run iv timeout st (map MArrS seq) = Ok (st', outs) /\ cur_d st' s = d'.
+Proof. exact run_single. Qed.
+Print Assumptions C05_sess_single_is_feed_all.
+
+(* Client: a message for a session that is not open is ignored. *)
+Theorem C05_sess_client_unknown_ignored : forall iv timeout st m,
+  ms_tab st (sid m) = None -> sm_step iv timeout st (MArrC m) = Ok (st, None).
+Proof. exact client_unknown_ignored. Qed.
+Print Assumptions C05_sess_client_unknown_ignored.
+
+(* Non-vacuity: two sessions whose messages carry the SAME packet id and count, each split in 4, both opened by a
+   fragment other than fragment 0, fragments alternating on the connection, one duplicate: both are delivered. *)
+Theorem C05_sess_example : length exs_fa = 4%nat /\ length exs_fb = 4%nat /\
+  run_outs (sm_run 1000 3000 (ms_init 500) exs_ops) = Some [exs_A; exs_B].
+Proof. exact exs_run. Qed.
+Print Assumptions C05_sess_example.
+
+(* Variant that is not the code: dropping a fragment other than fragment 0 for a session with no entry loses both
+   messages of that history although every fragment arrived. *)
+Theorem C05_sess_guard_refuted :
+  run_outs (sm_run_guard 1000 3000 (ms_init 500) exs_ops) = Some [].
+Proof. exact sess_guard_refuted. Qed.
+Print Assumptions C05_sess_guard_refuted.
+
+(* Variant that is not the code: one reassembler shared by the sessions of a connection hands on a payload nobody
+   sent (equal id and count across sessions) and loses both of two alternating messages (distinct ids), where the
+   per-session table hands on nothing / delivers both. *)
+Theorem C05_sess_shared_refuted :
+  (exists d' x, shared_run d_init exs_ops_chimera = Ok (d', [x]) /\ x <> exs_A /\ x <> exs_B) /\
+  run_outs (sm_run 1000 3000 (ms_init 500) exs_ops_chimera) = Some [] /\
+  (exists d', shared_run d_init exs_ops_alt = Ok (d', [])) /\
+  run_outs (sm_run 1000 3000 (ms_init 500) exs_ops_alt) = Some [exs_A; exs_C].
+Proof. exact sess_shared_refuted. Qed.
+Print Assumptions C05_sess_shared_refuted.
